@@ -8,6 +8,20 @@ Choices3 == << [pcT |-> 2, certT |-> 2, w |-> <<1, 1, 0>>, gens |-> <<2, 1>>],
 AllMutations == {"version", "height+1", "height-1", "prev", "slot-same", "slot-future", "generator", "sig-wrongkey", "sig-wrongchain",
                  "sig-stale", "sig-stale-mhg", "sig-stale-ts", "sig-stale-stateroot", "mhp+1", "mhg-zero", "mhg-deny-latest", "mhg-noclaim", "ac-height-stale", "ac-beyond-precommit", "ac-beyond-nextparams",
                  "ac-empty-wrong-height", "ac-badsig", "ac-wrongblock", "ac-halfempty", "ac-lowweight", "txroot", "assetroot", "eventroot",
-                 "stateroot", "vhash", "tx-static", "payload-size"}
+                 "stateroot", "vhash", "tx-static", "payload-size",
+                 \* the other side / other values of single-valued mutants, second-resolution slot boundaries, a swapped aggregate commit
+                 "version-0", "version-3", "mhp-1", "slot-past", "slot-same-last", "slot-future-first", "sig-stale-ac",
+                 \* every static transaction rule, invalid asset lists, roots over other well-formed content, one byte too many
+                 "tx-static-command", "tx-static-params-size", "tx-static-sender-len", "tx-static-no-sigs", "tx-static-short-sig", "tx-static-last",
+                 "assets-unsorted", "assets-duplicate", "eventroot-altered-data", "eventroot-altered-topic", "vhash-other-set", "vhash-old-on-change",
+                 "payload-max+1", "ac-lightsigners"}
+\* Node_w4321: four validators of unequal weight (in the harness the order of their addresses differs from the order of
+\* their BLS keys), every minimal signer set of an aggregate commit, wider shapes of the valid successors
+W4321 == <<4, 3, 2, 1>>
+G1234 == <<1, 2, 3, 4>>
+Choices4 == << [pcT |-> 4, certT |-> 6, w |-> <<3, 4, 2, 0>>, gens |-> <<2, 1, 3>>],
+               [pcT |-> 5, certT |-> 5, w |-> <<1, 2, 3, 4>>, gens |-> <<4, 3, 2, 1>>] >>
+TrueC == TRUE
+ShapesWide == {<<0, "ok", "mid">>, <<1, "ok", "mid">>, <<3, "ok", "mid">>, <<0, "ok", "last">>, <<2, "ok", "first">>, <<0, "max", "mid">>}
 NodeView == <<chain, vstack, fin, temp>>
 =============================================================================
